@@ -20,6 +20,42 @@ TEXT = {
     "C07": ("PATHS classification of TunnelEndpoint.send (all acyclic paths) + GUARD/WHO/TABLE rules (raw send sites, bounded deque, opt-in, delivery filter)",
             "Decides for all histories (state enters send only through its branch conditions): raw socket send only under a falsy anonymity switch for that packet's 22-byte prefix; tunnel sends only over a READY circuit from find_circuits(exit_flags=[EXIT_IPV8], hops=self.hops); otherwise bounded queue or drop; no other raw-send site, no reach-under, anonymity table written only by set_anonymity, opt-in and delivery filter shapes. Does not decide that the circuit's recorded exit flags are true at run time.",
             "Trusted: circuit.exit_flags bookkeeping (C08); REST operator actions excluded."),
+    "C04": ("TABLE/GUARD/MUSTPASS/WHO rules on the onion layering: every encrypt_cell/decrypt_cell site compared with the protocol table under its dominating role facts; plaintext whitelist; crypto-before-send and drop-on-failure path rules",
+            "Decides the layering discipline for all sites/paths: which role adds/removes which layer in which direction over which hops (e2e layer innermost, dual seeder/downloader directions, encrypt reversed / decrypt in order, missing keys raise), only create/created may be plaintext and other plaintext cells are dropped before delivery/relay, every cell leaves through a successful crypto step, failed authentication drops the cell, closed set of cell emitters. Does not decide byte-identical delivery, ciphertext distinctness or tamper rejection: those are properties of ChaCha20-Poly1305 in ipv8_rust_tunnels over run-time keys.",
+            "Trusted: AEAD in ipv8_rust_tunnels; a Rust CryptoEndpoint replacing PythonCryptoEndpoint is outside the analysed source."),
+    "C05": ("GUARD/TAINT/WHO rules on every mutation site of the three routing tables and on data delivery",
+            "Decides table-level isolation: each remove_* in on_destroy dominated by `peer == <entry for that id>.hop.peer` in an authenticated handler; every store keyed by a wire-controlled circuit id dominated by `id not in T` for all three tables; delivery dominated by the origin/neighbour test; exit return path bound to the socket's own circuit/hop; unwrap injects the header's circuit id; closed list of table writers. Does not decide cross-talk under interleavings of concurrent circuits.",
+            "Trusted: no shared mutable state besides the tables and request caches; 2^-32 collisions of locally generated ids."),
+    "C08": ("GUARD/MUSTPASS/TAINT/WHO/SIBLING rules on key acceptance",
+            "Decides: keys/hops are accepted only after a live retry cache with matching random identifier and after verify_and_generate_shared_secret returned normally with the static key of circuit.unverified_hop.peer (the peer selected in send_initial_create/send_extend, the only writers); return of the verification dominated by crypto_auth_verify; both DH sides concatenate (ephemeral, static); Circuit._hops append-only with one caller; relay-side create/extend pairing. Does not decide that both ends derive equal keys (X25519/HKDF at run time).",
+            "Trusted: X25519, crypto_auth, HKDF in ipv8_rust_tunnels / OpenSSL."),
+    "C09": ("TABLE/MUSTPASS/GUARD/PAIR rules on the reclamation machinery",
+            "Decides: do_remove sweeps a copy of each table with an unconditional inactivity (and age) test, do_circuits always runs it and is scheduled; each remove_* reaches its pop on every normal path after the configured delay and the exit variant closes sockets; destroy forwarded on exactly the far side and sent before the pop; join limit; relay_early budget at relay and originator; retry count strictly decreases and gives up by removing the circuit. Does not decide the time bound or behaviour under every loss pattern (timers, schedules).",
+            "Trusted: asyncio timers; C10/C11 for cache timeouts and task lifetime."),
+    "C10": ("PAIR/GUARD/MUSTPASS/WHO rules inside RequestCache",
+            "Decides the pairing discipline that makes 'exactly once' possible: pop removes then cancels; _on_timeout unregisters before the callback, completes futures only if not done; add stores only when not shut down and the identifier is free, under the lock, and always registers the timeout task; duplicate guards; shutdown ordering; identifier construction shared by all operations; _identifiers private; retrieve_cache tolerates late responses. Does not decide same-iteration races of pop and expiry (asyncio scheduling).",
+            "Trusted: a cancelled asyncio task never runs its body."),
+    "C11": ("MUSTPASS/PAIR/NOFIREANDFORGET/NOUNTRACKED/GUARD rules over every Overlay subclass and TaskManager",
+            "Decides unload completeness: super().unload() awaited on every path; request caches shut down first; every listener registered on an overlay's behalf is removed from unload; @task releases started in unload are awaited (and cannot abort it); sockets have a close reachable from unload; background futures registered or awaited; TaskManager gates (no registration after shutdown / under a live name, replace_task re-registers only in the old task's done-callback, flag before cancellation); listener removed before task shutdown; _deliver_later re-checks. Does not decide 'at whatever moment' beyond these orderings (schedules).",
+            "Trusted: asyncio cancellation semantics."),
+    "C12": ("MATRIX (mutation sites x derived indices) + GUARD/SIBLING/WHO rules on network.py",
+            "Decides index coherence: for every mutation site of verified_peers/_all_addresses/services_per_peer and every derived index, the mutator updates the index or all its readers re-validate against the authoritative collection; no partial cache entries; misses recompute; queries are read-only (also through aliases); blacklist guards; by-key pairing; snapshot codec symmetry; no external writers. Does not explore LRU eviction orders (a miss recomputes: checked).",
+            "Trusted: Peer equality by key; OrderedDict semantics."),
+    "C14": ("GUARD/PAIR/TAINT rules on routing.py",
+            "Decides the local guards from which the tree invariants follow by induction (argument in evidence): insert only under owns() and capacity, split only on our own path with prefix+0/prefix+1 children replacing the parent, owns as prefix test, closest_nodes = subtree walk that stops only with >= k live candidates, sorted by XOR distance, truncated; refresh id = prefix + 160-len(prefix) random bits (prefix characters flow into the result). Does not decide tree shape after long histories by execution.",
+            "Trusted: dht/trie.py (unit-tested) for longest-prefix/suffix/delete."),
+    "C15": ("GUARD/SIBLING/NOEARLYEXIT rules on the DHT store path",
+            "Decides: add_value in on_store_request dominated by requesting node, size and count limits and check_token for that node (before the variable is rebound); token pre-image identical in generate/check, two rotating secrets at 300 s; a signer is reported only under a valid signature over value[:-L] with the carried key; max(version) per signer; Storage.put replaces only with version >= old; Storage.clean examines every value; store-peer requires token and target == sender mid. Does not explore interleavings with clock advances.",
+            "Trusted: sha1 / os.urandom / signature primitives."),
+    "C16": ("GUARD/WHO/NOEARLYEXIT/SIBLING rules on the token tree",
+            "Decides: keeping (waiting area) and appending a token are dominated by verify under the tree's key; append needs genesis/contained parent and absence; elements written only by _append (+ database reload of tokens that passed gather_token); every waiting child of an appended token is re-offered (no early exit) so forks do not depend on arrival order; bounded waiting area; content attached only on hash match; chunk size equals the token struct; verify/get_root_path check every step. Does not enumerate permutations.",
+            "Trusted: signatures, sha3_256."),
+    "C17": ("DECISION+GUARD/MUSTPASS/TAINT/WHO rules on the identity overlay",
+            "Decides: the single approving exit of should_sign is dominated by the negation of every refusal reason, tuple positions derived from add_known_hash; attestation creation/sending dominated by solicited + correct substantiation + should_sign for that pseudonym and metadata; database inserts dominated by verify() under the recorded key; token hand-out derives only from token_chain[:permissions.get(peer,0)], permissions written only for the chosen peer. History independent because each guard reads only the current registration.",
+            "Trusted: signature primitives; C16 for chain verification."),
+    "C19": ("MUSTPASS/WHO/TABLE rules on the database layer",
+            "Decides the application's half of durability: every insert_* commits on every normal path before returning; no `with <database>:` deferral anywhere and commit() reaches connection.commit(); journal settings tracked through _initial_statements (file databases end in WAL + synchronous NORMAL; temporary DELETE always followed by WAL), no other pragma writers; IF NOT EXISTS schemas, INSERT OR IGNORE on keyed tables, check_database commits; INSERT/SELECT column order agrees with to/from_database_tuple. Does not decide SQLite's atomic commit or behaviour at each kill point.",
+            "Trusted: SQLite WAL atomic commit under process kill."),
 }
 
 NOT_BUILT_REASON = "check not built yet (build in progress; see DESIGN.md section 3)"
